@@ -28,9 +28,12 @@ CONFIG = {
              "non-trivial = every case (each is a distinct file content); distinct = distinct history terms",
     ),
     "C14": dict(
-        drivers=[("store", "store")], run="C14", shard=20,
-        header="From Whawty Require Import Names Record Store StoreSpec.",
-        rule="random histories on stores created by NewDirFromConfig from YAML the harness printed itself (2-4 sets, scrypt cost/r/p incl. defaulted r and p, argon2id time/memory/threads/length 16-64), "
+        parts=[dict(drivers=[("store", "store")], run="C14", shard=20, header="From Whawty Require Import Names Record Store StoreSpec."),
+               dict(drivers=[("cmd/whawty-auth", "main")], run="C14a", shard=20, case_type="acase14",
+                    header="From Whawty Require Import Names Record Store StoreSpec.")],
+        rule="agent level: add / update / login-triggered upgrade through the running agent before and after two SIGHUP reloads that change the default "
+             "parameter set: each written record must name the configured default and carry the digest the harness recomputed under that set; "
+             "store level: random histories on stores created by NewDirFromConfig from YAML the harness printed itself (2-4 sets, scrypt cost/r/p incl. defaulted r and p, argon2id time/memory/threads/length 16-64), "
              "default switched mid-history; after every acknowledged write the file is compared byte-for-byte with the schema line built from the "
              "digest the harness recomputed with x/crypto, the salt's size and freshness are checked (per history in Coq, across the run in the driver), "
              "the recorded time must lie in the call window, the directory is scanned for passwords and the raw/base64 HMAC key; "
